@@ -112,6 +112,14 @@ def parse_op(op):
         n["info"] = t.answer(lambda: {"hostname": t.s(), "addr": t.s(), "tcp": t.s(), "version": t.s(), "ver": (t.n(), t.n(), t.n())})
         n["stats"] = t.answer(lambda: t.counted(lambda: t.nullable("T", lambda: p_topic(t))))
         w["nsqds"][n["addr"]] = n
+    w["per_topic"] = {}
+    if t.i < len(t.t) and t.t[t.i] == "I":
+        t.next()
+        for _ in range(t.n()):
+            lk, topic = t.s(), t.s()
+            lo = t.answer(lambda: t.counted(lambda: t.nullable("P", lambda: p_producer(t))))
+            ch = t.answer(lambda: t.counted(t.s))
+            w["per_topic"].setdefault((lk, topic), (lo, ch))   # the stub serves the first entry of a topic
     return req, w
 
 
@@ -156,7 +164,8 @@ def stage1(req, w):
                 if n["info"] is None:
                     fails += 1
                     continue
-                out.append(n["info"]["addr"])
+                # GetNSQDTopicProducers: an /info answer without broadcast_address is completed from the configured address
+                out.append(a if n["info"]["addr"].startswith(":") else n["info"]["addr"])
         else:
             if n is None or n["info"] is None or n["stats"] is None:
                 fails += 1
@@ -165,10 +174,47 @@ def stage1(req, w):
     return out, fails, fails == len(w["addrs"])
 
 
+def inactive_expected(w):
+    """`/api/topics?inactive=true` by the property's own rule, from the cluster description alone:
+    (status, warn, {topic: channels}). nsqlookupd mode: the topics no responding nsqlookupd lists a producer for, each
+    with the union of the channels the responding nsqlookupds report; every stage (the topic lists, and for every topic
+    the /lookup answers and - for a topic without producers - the /channels answers) is 502 when nobody answers it and
+    a warning when somebody does not. Direct mode: the empty map (every topic of an nsqd is live there)."""
+    if not w["lookupds"]:
+        answers = [stats_of(w, a, "") for a in w["addrs"]]
+        fails = sum(1 for a in answers if a is None)
+        return (502, None, None) if fails == len(answers) else (200, fails > 0, {})
+    tops = [l["topics"] for l in w["lookupds"]]
+    fails = sum(1 for a in tops if a is None)
+    if fails == len(tops):
+        return 502, None, None
+    warn, out = fails > 0, {}
+    for t in sorted(set(x for a in tops if a is not None for x in a)):
+        look, chans = [], []
+        for l in w["lookupds"]:
+            lo, ch = w["per_topic"].get((l["addr"], t), (l["lookup"], []))
+            look.append(lo)
+            chans.append(ch)
+        lf = sum(1 for a in look if a is None)
+        if lf == len(look):
+            return 502, None, None
+        warn = warn or lf > 0
+        if any(p is not None for a in look if a is not None for p in a):
+            continue
+        cf = sum(1 for a in chans if a is None)
+        if cf == len(chans):
+            return 502, None, None
+        warn = warn or cf > 0
+        out[t] = sorted(set(c for a in chans if a is not None for c in a))
+    return 200, warn, out
+
+
 def expected_status(req, w):
     """(status set allowed, warn or None) by the property's own rule: 502 iff nothing answered,
     200 with a warning iff something but not everything failed."""
     kind = req["kind"]
+    if kind == "inactive":
+        return inactive_expected(w)[:2]
     if kind == "topics":
         if w["lookupds"]:
             answers = [l["topics"] for l in w["lookupds"]]
@@ -303,6 +349,19 @@ def property_fails_on(op, impl):
         return "%s view: warning %s but %s upstream answer(s) failed" % (req["kind"], a[1], "some" if warn else "no")
     body = a[2]
     kind = req["kind"]
+    if kind == "inactive":
+        m = re.match(r"I\[(.*)\]$", body)
+        if not m:
+            return "unreadable inactive-topics view %r" % body[:120]
+        got = {}
+        for e in ([] if m.group(1) == "-" else m.group(1).split(";")):
+            k, v = e.rsplit("=", 1)
+            got["" if k == "-" else k] = [] if v == "-" else [("" if c == "-" else c) for c in v.split("+")]
+        want = inactive_expected(w)[2]
+        if got != want:
+            bad = sorted(k for k in set(got) | set(want) if got.get(k) != want.get(k))[:3]
+            return "inactive-topics view shows %s; by what the responding nsqlookupds say it is %s" % (
+                dict((k, got.get(k)) for k in bad), dict((k, want.get(k)) for k in bad))
     if kind == "topics":
         if w["lookupds"]:
             names = set(t for l in w["lookupds"] if l["topics"] is not None for t in l["topics"])
@@ -458,6 +517,20 @@ def topic_channels_fail(req, w, prods, body):
             return "topic view, channel %r: %d node entries merged into the first report; %d node report(s) exist" % (
                 n, cs[14], reports[n])
     return None
+
+
+def inactive_drops_errors(op, impl):
+    """The known shape of the `?inactive=true` defect: a 200 without warning (or a 200 instead of the 502) while one of
+    the per-topic /lookup or /channels answers failed - the handler throws those two errors away."""
+    try:
+        req, w = parse_op(op)
+    except Exception:
+        return False
+    if req["kind"] != "inactive" or not impl.startswith("200 "):
+        return False
+    exp, warn, _ = inactive_expected(w)
+    failed = any(lo is None or ch is None for lo, ch in w["per_topic"].values()) or any(l["lookup"] is None for l in w["lookupds"])
+    return failed and (exp == 502 or (warn and impl.split()[1] == "0"))
 
 
 def crash_key(out):
@@ -667,6 +740,8 @@ def run(ctx):
                         key = "crash:null-percentile" if " panic decode " in " " + i + " " and "nil map" in i else "latency:" + i[:60]
                     if "no producer is known" in bad:
                         key = "view:502-without-producers"
+                    if o.startswith("view inactive ") and inactive_drops_errors(o, i):
+                        key = "view:inactive-drops-errors"
                     if "/j:" in o and not o.startswith("lat "):
                         key = "view:upstream-nodes-member"
                     if key == "view:channel:500":
